@@ -290,6 +290,9 @@ class NP2Converter:
         assert (
             np.mod(self.samples_overlap, self.ratio) == 0
         ), f"samples_overlap must be a factor or {self.ratio}"
+        assert (
+            self.samples_window > self.samples_overlap
+        ), f"nwindow must be greater than the overlap of {self.samples_overlap} samples"
         self.samples_taper = int(self.samples_overlap / 4)
         assert (
             np.mod(self.samples_taper, self.ratio) == 0
